@@ -133,3 +133,22 @@ def graph_kinetics(w, h, d, bc, i):
     a = [float(v) for v in kinetics.compute_dstatedt(s1).value]
     b = [float(v) for v in kinetics.compute_dstatedt(s2).value]
     return all(abs(x - y) <= 1e-9 * (1 + abs(x)) for x, y in zip(a, b))
+
+
+def abi_boundary(w, h, d, bc):
+    """what LibRDEngine hands to the native engine for a grid: the three sizes and, per axis, that axis' own boundary condition"""
+    from strengths.librdengine import LibRDEngine
+    from strengths.rdscript import RDScript
+    from vt.glue import RecLib, GRID_NAMES
+    net = RDNetwork(species=[Species("A", D=1.5, density=1)], reactions=[])
+    sysm = RDSystem(net, grid(w, h, d, bc))
+    for option in ("euler", "gillespie"):
+        lib = RecLib()
+        e = LibRDEngine(lib, option=option, requires_molecules=option != "euler")
+        e.setup(RDScript(sysm, [0, 1.0]))
+        name, vals = [c for c in lib.log if c[0].startswith("engineexport_initialize")][0]
+        a = dict(zip(GRID_NAMES, vals))
+        want = {ax: BCS[bc].get(ax, "reflecting") for ax in "xyz"}
+        if (a["w"], a["h"], a["d"]) != (w, h, d) or (a["bcx"], a["bcy"], a["bcz"]) != (want["x"], want["y"], want["z"]):
+            return False
+    return True
